@@ -519,3 +519,32 @@ Proof.
   - vm_compute. reflexivity.
   - vm_compute. reflexivity.
 Qed.
+
+(* ---------- one-integer (Unix nanoseconds) view of a time ---------- *)
+Lemma gt_abs_of_abs a : gt_abs (gt_of_abs a) = a.
+Proof. unfold gt_abs, gt_of_abs; cbn [gt_sec gt_nsec]. consts. lia. Qed.
+
+Lemma gt_of_abs_wf a : min_i64 * ns_per_s <= a < (max_i64 + 1) * ns_per_s -> gt_wf (gt_of_abs a).
+Proof. unfold gt_wf, gt_of_abs; cbn [gt_sec gt_nsec]. consts. lia. Qed.
+
+Lemma gt_of_abs_abs t : gt_wf t -> gt_of_abs (gt_abs t) = t.
+Proof.
+  intros Ht. apply gt_abs_inj; [apply gt_of_abs_wf| exact Ht | apply gt_abs_of_abs].
+  unfold gt_wf, gt_abs in *. destruct t as [s n]; cbn [gt_sec gt_nsec] in *. consts. lia.
+Qed.
+
+(* unix_repr is exactly the range of time.Time: every representable time has a Unix-nanosecond value in it,
+   every value in it is a representable time, and the two conversions are inverse *)
+Theorem unix_range_exact :
+  (forall t, gt_wf t -> unix_repr (gt_unix t) /\ gt_of_unix (gt_unix t) = t) /\
+  (forall u, unix_repr u -> gt_wf (gt_of_unix u) /\ gt_unix (gt_of_unix u) = u).
+Proof.
+  split.
+  - intros t Ht. unfold gt_of_unix, gt_unix. replace (gt_abs t - unix_off + unix_off) with (gt_abs t) by lia.
+    split; [|apply gt_of_abs_abs; exact Ht].
+    unfold unix_repr, gt_wf, gt_abs in *. destruct t as [s n]; cbn [gt_sec gt_nsec] in *. consts. lia.
+  - intros u Hu. unfold gt_of_unix, gt_unix. rewrite gt_abs_of_abs. split; [apply gt_of_abs_wf; exact Hu|lia].
+Qed.
+
+Lemma gt_zero_unix : gt_of_unix (-62135596800 * 1000000000) = gt_zero.
+Proof. reflexivity. Qed.
